@@ -26,19 +26,19 @@ import (
 const hagall = "github.com/aukilabs/hagall"
 
 type facts struct {
-	sendCap, discCap, queueCap            int64 // -1 = not found
-	discBlocking                          bool
-	discSends                             int
-	hdDirect, hdEntry                     int
-	hdEntryInMainLoop                     bool
-	idleCase, idleRearmed                 bool
-	senderDiscards                        bool
-	queueDiscarded                        bool
-	writeDeadline                         bool
-	shellRecovers                         bool
-	nilSites                              []string
-	notes                                 []string
-	loadFailed                            string
+	sendCap, discCap, queueCap int64 // -1 = not found
+	discBlocking               bool
+	discSends                  int
+	hdDirect, hdEntry          int
+	hdEntryInMainLoop          bool
+	idleCase, idleRearmed      bool
+	senderDiscards             bool
+	queueDiscarded             bool
+	writeDeadline              bool
+	shellRecovers              bool
+	nilSites                   []string
+	notes                      []string
+	loadFailed                 string
 }
 
 func main() {
